@@ -234,6 +234,30 @@ def check(run):
     run.check(bool(adv) and q.on_all_paths(sp, [a.site for a in adv]), 'R4', 'every-transmission-counted', sp.norm, sp.loc(),
               'the byte counter is advanced only on some paths through send_packet (e.g. only while a capture is active): a capture enabled after the connection has carried data numbers its records from 0 instead of from the bytes already transmitted',
               'advanced on every path through send_packet')
+    # the TCP header's source port is read from packet::from: every segment built and handed to send_packet carries it
+    run.clause('every segment a socket builds and transmits has packet::from set to its own endpoint before send_packet (log_tcp takes the source port from it): data segments and the closing segment alike')
+    nb = 0
+    for g_ in [f_ for f_ in fx.repo_functions() if q.top_function(fx, f_).cls == sp.cls]:
+        for c in g_.calls():
+            if c.get('usr') != sp.usr or not c.get('args'):
+                continue
+            a0 = q.strip_casts(c['args'][0])
+            while is_node(a0) and a0['k'] == 'call' and (q.callee_name(a0) or '').startswith('std::move') and a0.get('args'):
+                a0 = q.strip_casts(a0['args'][0])
+            if not (is_node(a0) and a0['k'] == 'ref' and a0.get('dk') == 'local'):
+                continue
+            decl = [v for n in g_.all_nodes() if n['k'] == 'decl' for v in n['vars'] if v.get('did') == a0['did']]
+            if not decl or (decl[0].get('init') is not None and q.strip_casts(decl[0]['init']).get('k') not in ('construct', None) ):
+                continue        # taken out of a queue (retransmission): built earlier
+            if decl[0].get('init') is not None and (q.strip_casts(decl[0]['init']).get('args') or []):
+                continue
+            nb += 1
+            run.touch(g_)
+            sets = [a.site for a in q.field_accesses(g_, {'sim::aux::packet::from'}) if a.kind == 'assign' and is_node(q.access_root(a.node)) and q.access_root(a.node).get('did') == a0['did']]
+            run.check(bool(sets) and q.any_precedes(g_, sets, c), 'R4', 'segment-has-source', '%s: send_packet(%s)' % (q.top_function(fx, g_).norm, q.render(g_, a0)), g_.loc(c),
+                      'the segment built here is transmitted without packet::from having been set: log_tcp writes its TCP source port from p.from.port(), so the record carries source port 0', 'p.from assigned before send_packet')
+    if nb < 2:
+        run.broke('fewer than 2 locally built segments handed to send_packet found (%d; write_some_impl and close confirmed by hand)' % nb)
     q.alias_local(sp, 'idx', init_re=r'self_idx\(')
     idx = [v for v in [q.local_var(sp, 'idx')] if v]
     if not idx:
